@@ -87,7 +87,7 @@ VALUES_RULE = ("seeded generator (harness/engines/values.py): expressions over t
                "str, bytes, Enum, Flag, classes, dataclass (defaults, default_factory), attrs, pydantic, NamedTuple / namedtuple, defaultdict, objects with non-Python repr (HasRepr), "
                "list / tuple / dict / set / frozenset nesting (sets of ints, strs, mixed, arbitrary hashables) up to depth 3; operations == <= >= in [key]; placements assert / helper "
                "argument / module level / loop; a fraction of cases repeated in separate interpreters with PYTHONHASHSEED 0 / 1 / 4242, with black missing and with a format-command")
-PROPS["C01"] = {"engines": [("values", {"quick": 700, "thorough": 20000}), ("strlit", {"quick": 800, "thorough": 20000}), ("site", {"quick": 800, "thorough": 20000})],
+PROPS["C01"] = {"engines": [("values", {"quick": 450, "thorough": 20000}), ("strlit", {"quick": 800, "thorough": 20000}), ("site", {"quick": 800, "thorough": 20000})],
                 "rule": VALUES_RULE + " ; plus " + STR_RULE + " ; plus " + SITE_RULE, "cap_s": {"quick": 80, "thorough": 850},
                 "assumptions": ["class names used by generated code resolve in the test module (classes are defined at module level)",
                                 "the formatter preserves the value of the generated fragment (validated per case by the disabled re-run)"]}
